@@ -25,6 +25,11 @@ func PosAt(src []byte, off int) hcl.Pos {
 			ls = i + 1
 		}
 	}
+	// a byte order mark at the start of the file occupies no column (the hcl scanner skips it and
+	// advances the byte offset only)
+	if ls == 0 && off >= 3 && len(src) >= 3 && src[0] == 0xEF && src[1] == 0xBB && src[2] == 0xBF {
+		ls = 3
+	}
 	col := 1
 	b := src[ls:off]
 	for len(b) > 0 {
